@@ -11,9 +11,13 @@
 #include <scientific.h>
 #include <memwrapper.h>
 
+/* every case starts with a stale error number on the calling thread, as after an unrelated libm domain error earlier in the
+   caller's program (sqrt of a negative number): no result of the library may depend on it */
+#include <errno.h>
 static int rd_tok(char *buf, size_t n)
 {
   int c; size_t k = 0;
+  errno = EDOM;
   while((c = getchar()) != EOF && (c == ' ' || c == '\n' || c == '\t' || c == '\r'));
   if(c == EOF) return 0;
   do{ if(k+1 < n) buf[k++] = (char)c; c = getchar(); }while(c != EOF && c != ' ' && c != '\n' && c != '\t' && c != '\r');
@@ -60,6 +64,8 @@ static int same_m(matrix *a, matrix *b){ size_t i, j; if(a->row != b->row || a->
 static int same_v(dvector *a, dvector *b){ size_t i; if(a->size != b->size) return 0; for(i = 0; i < a->size; i++) if(!same_d(a->data[i], b->data[i])) return 0; return 1; }
 static int same_u(uivector *a, uivector *b){ size_t i; if(a->size != b->size) return 0; for(i = 0; i < a->size; i++) if(a->data[i] != b->data[i]) return 0; return 1; }
 static void junk_m(matrix *m){ size_t i, j; for(i = 0; i < m->row; i++) for(j = 0; j < m->col; j++) m->data[i][j] = 1000.0 + 7.0*(double)i - 3.0*(double)j; }
+/* an output object that held a table of ANOTHER shape before (r x c, filled with numbers) */
+static void other_m(matrix **m, size_t r, size_t c){ DelMatrix(m); NewMatrix(m, r, c); junk_m(*m); }
 static void junk_v(dvector *v){ size_t i; for(i = 0; i < v->size; i++) v->data[i] = -500.0 + 11.0*(double)i; }
 static long reuse_mask;
 #define RB(bit, ok) do{ if(!(ok)) reuse_mask |= (1L << (bit)); }while(0)
